@@ -47,7 +47,7 @@ RULE = (
     "the shared ill-typed / annotated-program generators (10 % each). Non-trivial = the generated part has >= 8 "
     "distinct AST node types and the check produced >= 1 diagnostic or the part has >= 40 nodes; distinct by "
     "AST-node-type multiset of the generated part. CLI: ~20 generated files per shard through `python -m pyanalyze`, "
-    "a CLI regression list, and 7 constant-evaluation termination probes (power, shift, sequence repetition, doubling chain, in-place power, pure builtin / method on literals) under RLIMIT_CPU / RLIMIT_AS. Value-API case = one call of "
+    "a CLI regression list, and 10 constant-evaluation termination probes (power, shift, sequence repetition, doubling chain, in-place power, pure builtin / method on literals) under RLIMIT_CPU / RLIMIT_AS. Value-API case = one call of "
     "can_assign/is_assignable/can_overlap(3 modes)/unite_values/==/substitute_typevars/str/repr/hash/simplify on "
     "values of a pool (vp.valuegen core + random; all ordered pairs, sampled triples, deeper random values) or "
     "type_from_runtime (string / object, with and without allow_unpack) / type_from_ast on an annotation (every form "
@@ -68,10 +68,10 @@ ASSUMPTIONS = [
 FLOORS = {
     "quick": {"distinct_nontrivial": 4500, "programs_checked": 3400, "program_checks": 10000, "diagnostics_checked": 450000,
               "contract_evaluations": 1000000, "value_api_calls": 800000, "cli_runs": 160, "annotation_conversions": 15000,
-              "regression_programs": 20, "sweep_programs": 420, "termination_probes": 7, "cli_regression_programs": 2},
+              "regression_programs": 20, "sweep_programs": 420, "termination_probes": 10, "cli_regression_programs": 2},
     "thorough": {"distinct_nontrivial": 15000, "programs_checked": 20000, "program_checks": 60000, "diagnostics_checked": 2500000,
                  "contract_evaluations": 5000000, "value_api_calls": 3000000, "cli_runs": 320, "annotation_conversions": 60000,
-                 "regression_programs": 20, "sweep_programs": 420, "termination_probes": 7, "cli_regression_programs": 2},
+                 "regression_programs": 20, "sweep_programs": 420, "termination_probes": 10, "cli_regression_programs": 2},
 }
 NSHARDS = 16
 WATCHDOG_S = {"quick": 1500, "thorough": 7200}
@@ -810,6 +810,10 @@ TERMINATION_PROBES = [
     # evaluated through Signature._maybe_perform_call (any pure callable on literal arguments), not through the operators
     ("pure-callable-on-literals", "def f():\n    x = 1000 ** 1000\n    return pow(x, x)\n"),
     ("pure-method-on-literals", "def f():\n    n = 10 ** 11\n    return 'a'.ljust(n)\n"),
+    # the size guard must look at every member of a union of literals, on either side
+    ("literal-power-union-exponent", "def f(c):\n    e = 10 ** 8 if c else 1\n    return 7 ** e\n"),
+    ("literal-power-union-base", "def f(c):\n    b = 10 ** 8 if c else 1\n    return b ** b\n"),
+    ("literal-repeat-union-count", "def f(c):\n    n = 10 ** 11 if c else 1\n    return 'ab' * n, n * [0]\n"),
 ]
 PROBE_CPU_S = 20
 PROBE_AS_BYTES = 3 << 29  # 1.5 GiB
